@@ -319,7 +319,7 @@ pub fn configs(tier: crate::registry::Tier, _seed: u64) -> Vec<crate::registry::
     }
     v.push(entry(Hnf { ring: RingSel::Z, m: 2, n: 2, b: 1, flags: [false, false] }, 300, 40.0));
     v.push(entry(Hnf { ring: RingSel::Z, m: 2, n: 2, b: 1, flags: [true, false] }, 300, 40.0));
-    for (ring, m, n, b, cls, secs) in [(RingSel::Z, 1, 2, 3, 50, 10.0), (RingSel::Z, 2, 2, 2, 600, 120.0), (RingSel::Z, 2, 3, 1, 600, 120.0), (RingSel::Gauss, 2, 2, 1, 600, 120.0), (RingSel::Eisen, 2, 1, 1, 400, 60.0)] {
+    for (ring, m, n, b, cls, secs) in [(RingSel::Z, 1, 2, 3, 50, 10.0), (RingSel::Z, 2, 2, 2, 600, 120.0), (RingSel::Z, 2, 3, 1, 600, 120.0), (RingSel::Gauss, 2, 2, 1, 600, 120.0), (RingSel::Eisen, 2, 1, 1, 400, 60.0), (RingSel::Z, 3, 3, 2, 300, 100.0), (RingSel::Z, 4, 4, 2, 200, 150.0)] {
         v.push(entry(Lll { ring, m, n, b }, cls, secs));
     }
     if tier == Tier::Thorough {
